@@ -748,7 +748,22 @@ def check_C15(ctx):
     return finish(ctx)
 
 
-CHECKS = {"C15": check_C15, "C17": check_C17, "C18": check_C18, "C11": check_C11, "C13": check_C13, "C12": check_C12, "C19": check_C19, "C20": check_C20, "C10": check_C10, "C09": check_C09, "C07": check_C07, "C08": check_C08, "C01": check_C01, "C02": check_C02, "C03": check_C03, "C04": check_C04, "C05": check_C05, "C06": check_C06}
+def check_C16(ctx):
+    ctx.rule = ("spec/mc/MC_Order.tla fixes a fact set (3 terms, every acyclic is_a relation, every set of <=2 (3 thorough) annotation facts over 2 genes + 1 OMIM (+1 ORPHA thorough) disease) and lets the Builder "
+                "machine of HpoCore receive terms, links and facts in EVERY order; invariants OrderFree / CachesOrderFree: projection, caches and (n, N) of the built state equal a pure function of "
+                "the fact set.  One REPLAY line per order.  The harness issues the calls in that order, in canonical and in reversed order, through the Builder, through binary v3/v2 files whose "
+                "records and id lists follow those orders or a random permutation, and through text files with permuted stanzas and rows; every ontology must equal the specification's projection and "
+                "all must be observationally identical (whole read API; iteration order excluded).  Beyond TLC's sizes: random fact sets of 40-90 terms (deep multi-parent DAGs, obsolete flags, 30-120 facts) "
+                "under 4 permutations x Builder / binary / text, compared pairwise; non-trivial = at least two links or facts to permute")
+    out = tlc(ctx, "mc/MC_Order.cfg" if ctx.quick else "mc/MC_OrderThorough.cfg", "mc/MC_Order.tla", workers=14, timeout=3000)["out"]
+    s = hv(ctx, "replay-order", prop="C16", big=(32 if ctx.quick else 400), stride=(1 if ctx.quick else 1), all_concs=(0 if ctx.quick else 1), **{"in": out})
+    ctx.traces += s.get("cases", 0)
+    ctx.extra["big_fact_sets"] = s.get("counters", {}).get("big_fact_sets", 0)
+    ctx.assumptions += ["one name per record id and one replacement per term, as the property states; the Builder API cannot set obsolete flags, so flagged terms are permuted on the binary and text paths only"]
+    return finish(ctx)
+
+
+CHECKS = {"C16": check_C16, "C15": check_C15, "C17": check_C17, "C18": check_C18, "C11": check_C11, "C13": check_C13, "C12": check_C12, "C19": check_C19, "C20": check_C20, "C10": check_C10, "C09": check_C09, "C07": check_C07, "C08": check_C08, "C01": check_C01, "C02": check_C02, "C03": check_C03, "C04": check_C04, "C05": check_C05, "C06": check_C06}
 
 
 def run_check(prop, tier, seed):
